@@ -58,6 +58,39 @@ def matref_examples():
     assert near(m_apply(m_mul(t, sc), (1.0, 1.0)), (12.0, 2.0))
 
 
+@check
+def arcref_examples():
+    from .ref import arcref
+
+    # quarter circle of radius 10 from (10,0) to (0,10), centre the origin, positive direction
+    a = arcref.endpoint_to_centre(10, 0, 10, 10, 0, 0, 1, 0, 10)
+    assert near((a.cx, a.cy), (0, 0)) and near(a.dtheta, math.pi / 2) and near(a.theta1, 0.0), (a.cx, a.cy, a.theta1, a.dtheta)
+    assert near(a.point(0.5), (10 * math.cos(math.pi / 4), 10 * math.sin(math.pi / 4)))
+    # the other three flag choices for the same endpoints (SVG 1.1 figure 'arcs02')
+    b = arcref.endpoint_to_centre(10, 0, 10, 10, 0, 1, 0, 0, 10)
+    assert near((b.cx, b.cy), (0, 0)) and near(b.dtheta, -1.5 * math.pi)
+    c = arcref.endpoint_to_centre(10, 0, 10, 10, 0, 0, 0, 0, 10)
+    assert near((c.cx, c.cy), (10, 10)) and near(c.dtheta, -math.pi / 2)
+    d = arcref.endpoint_to_centre(10, 0, 10, 10, 0, 1, 1, 0, 10)
+    assert near((d.cx, d.cy), (10, 10)) and near(d.dtheta, 1.5 * math.pi)
+    # radii too small are scaled up uniformly until the chord is a diameter (F.6.6)
+    e = arcref.endpoint_to_centre(0, 0, 1, 2, 0, 0, 1, 10, 0)
+    assert e.scaled and near(e.rx, 5.0) and near(e.ry, 10.0) and near((e.cx, e.cy), (5.0, 0.0)) and near(abs(e.dtheta), math.pi)
+    # negative radii act as their absolute values; rotation is taken modulo 360
+    f = arcref.endpoint_to_centre(3, 4, -7, 5, 30 + 720, 1, 0, -2, 9)
+    g = arcref.endpoint_to_centre(3, 4, 7, -5, 30, 1, 0, -2, 9)
+    assert near(f.point(0.3), g.point(0.3)) and near(f.point(1.0), (-2, 9)) and near(f.point(0.0), (3, 4))
+    # every point satisfies the ellipse equation
+    for t in (0.1, 0.5, 0.9):
+        x, y = f.point(t)
+        cs, sn = math.cos(f.phi), math.sin(f.phi)
+        u = cs * (x - f.cx) + sn * (y - f.cy)
+        v = -sn * (x - f.cx) + cs * (y - f.cy)
+        assert near(u * u / f.rx ** 2 + v * v / f.ry ** 2, 1.0)
+    assert arcref.endpoint_to_centre(1, 1, 5, 5, 0, 0, 1, 1, 1) is None
+    assert arcref.endpoint_to_centre(1, 1, 0, 5, 0, 0, 1, 2, 2) is None
+
+
 def main():
     failed = 0
     for f in CHECKS:
